@@ -106,7 +106,7 @@ theorem where_partition_plan [DecidableEq κ] (S : Sem χ ρ ν ε κ α) (Q : Q
     exact (runL_unlimited_site S Q inp _ _ params).trans this
   have hk : ∀ q, execute S Q .unlimited params (.filter q inp) = keep S Q params q rows := by
     intro q
-    simp only [execute, runL, guard_unlimited, hs, keep]
+    simp only [execute, runL, guard_unlimited, hs, keep, dropErrT_run_ok]
   simp only [hk]
   exact where_partition S Q notE isNullE hS params p rows hb
 
